@@ -11,7 +11,7 @@ one() {
   pid=$(grep -o 'prop_C[0-9]*' /tmp/tasks/$rnd$L.txt | head -1 | sed 's/prop_//')
   wt=/tmp/cf_$rnd$L
   ./tools/mkworktree.sh $wt >/dev/null 2>&1
-  ( cd $wt && mkdir -p mutant/tmp && cp $src/demo.c mutant/ && { [ -f $src/build.sh ] && cp $src/build.sh mutant/; true; }
+  ( cd $wt && mkdir -p mutant/tmp && cp $src/demo.c mutant/ && { [ -f $src/build.sh ] && sed "s|/tmp/wt_$rnd$L|$wt|g" $src/build.sh > mutant/build.sh; true; }
     bld() { if [ -f mutant/build.sh ]; then sh mutant/build.sh >/dev/null 2>&1; else gcc -g -I src -I . mutant/demo.c src/.libs/libconfuse.a -o mutant/demo >/dev/null 2>&1; fi; }
     bld; ./mutant/demo >/dev/null 2>&1; rc0=$?
     git apply $src/patch.diff 2>/dev/null || echo "patch does not apply"
